@@ -29,8 +29,10 @@ for d in sorted(glob.glob(os.path.join(seed_dir, 'C*'))):
     pid = os.path.basename(d)
     if only and pid not in only:
         continue
-    for patch in sorted(glob.glob(os.path.join(d, 'patch*.diff'))):
+    for patch in sorted(glob.glob(os.path.join(d, 'patch[0-9]*.diff'))):
         i = re.search(r'patch(\d+)\.diff', patch).group(1)
+        if os.path.exists(os.path.join(d, f'patch{i}_rebased.diff')):      # the tree moved on: hand-made equivalent of the seeded change
+            patch = os.path.join(d, f'patch{i}_rebased.diff')
         demo = os.path.join(d, f'demo{i}.py')
         meta = json.load(open(os.path.join(d, f'meta{i}.json'))) if os.path.exists(os.path.join(d, f'meta{i}.json')) else {}
         rec = {'id': f'{pid}-{i}', 'property': pid, 'summary': meta.get('summary', ''), 'needs': meta.get('what_it_needs_to_manifest', '')}
